@@ -207,6 +207,9 @@ def memsim_ops(config, flags):
                 reg(f'op_badindex4<{t},{sh4}>', 'badindex', 'F_BADINDEX')
         reg(f'op_cast<{t},{"double" if t != "double" else "float"},3,5>', 'cast')
         reg(f'op_cast<{t},{"int" if t != "int" else "float"},2,9>', 'cast')
+        for n in (3, 7, 9, 17, 33):
+            reg(f'op_map_cast<{t},{"double" if t != "double" else "float"},{n}>', 'map_cast', 'F_ANYALIGN')
+        reg(f'op_map_cast<{t},{"int" if t != "int" else "Int64"},3,5>', 'map_cast', 'F_ANYALIGN')
         for sh in ('7', '3,3', '2,3,5', '17'):
             reg(f'op_tovector<{t},{sh}>', 'exempt', 'F_EXEMPT')
             reg(f'op_print<{t},{sh}>', 'exempt', 'F_EXEMPT')
